@@ -392,7 +392,9 @@ theorem c18_swarm_live_steps_le_limit_at_start (L : SwarmLive σ ω) (adv : Swar
 
 /-- Success is reported only for an output carrying a completion marker — also when the callbacks move the
     limits: it is the last step output of the last spawned worker, no earlier step of that worker carried a
-    marker; failure carries no output. -/
+    marker; failure carries no output and is reported only when the loop test failed — more workers spawned than
+    `max_regenerations` allows as it is in the final state — after every worker was run without a marker and
+    summarised. -/
 theorem c18_swarm_live_success_only_with_marker (L : SwarmLive σ ω) (adv : SwarmAdv σ W ω η ι τ) (task : τ)
     (hints0 : η) (fuel : Nat) (sw : SwarmSt ι η) (s : σ) (r : SwarmResult ω ι)
     (h : (superviseL L adv task hints0 fuel sw s).res = some (.ok r)) :
@@ -400,9 +402,16 @@ theorem c18_swarm_live_success_only_with_marker (L : SwarmLive σ ω) (adv : Swa
       ∃ sp w o pre, (superviseL L adv task hints0 fuel sw s).spawns.getLast? = some sp ∧ sp.worker = .ok w ∧
         sp.steps = pre ++ [.ok o] ∧ NoMarkerL L pre ∧ L.marker o = true ∧ r.output = some o ∧
         r.finalId = some (adv.wid w) ∧ r.total = (superviseL L adv task hints0 fuel sw s).sw.counter) ∧
-    (r.success = false → r.output = none ∧ r.finalId = none) :=
-  ⟨(superviseLoopL_facts L adv task fuel 0 hints0 sw s).success r h,
-   (superviseLoopL_facts L adv task fuel 0 hints0 sw s).failure r h⟩
+    (r.success = false → r.output = none ∧ r.finalId = none ∧
+      ¬ ((superviseL L adv task hints0 fuel sw s).spawns.length : Int) ≤ L.regenOf (superviseL L adv task hints0 fuel sw s).st ∧
+      ∀ sp ∈ (superviseL L adv task hints0 fuel sw s).spawns,
+        NoMarkerL L sp.steps ∧ ∃ w hh, sp.worker = .ok w ∧ sp.summ = some (.ok hh)) := by
+  refine ⟨(superviseLoopL_facts L adv task fuel 0 hints0 sw s).success r h, ?_⟩
+  intro hs
+  obtain ⟨g1, g2, g3, g4⟩ := (superviseLoopL_facts L adv task fuel 0 hints0 sw s).failure r h hs
+  refine ⟨g1, g2, ?_, g4⟩
+  simp only [Nat.zero_add] at g3
+  exact g3
 
 /-- Exact when no callback assigns: with callbacks that keep an invariant `Inv` under which the limits read
     are `cfg` / `code`, the call is the entry-snapshot `supervise` of the section above, spawn for spawn — so
